@@ -276,7 +276,17 @@ impl<'a, 'e> Ev<'a, 'e> {
                 self.host.log.push(HostEv::Apply(*n, arg.clone()));
                 if self.host.apply_accept { crate::mon::apply_sentinel(*n, &arg) } else { V::Unit }
             }
-            (V::Partial(..), _) => V::Unknown,
+            // a partial application runs its expression with `input <> argument`; a partial application of
+            // anything else yields unit (the host is not consulted: the receiver is not applied at all)
+            (V::Partial(recv, inp), _) => match &**recv {
+                V::Expr(id) => {
+                    if arg.has_unknown() {
+                        return Ok(V::Unknown);
+                    }
+                    self.call(*id, V::Concat(inp.clone(), Box::new(arg.clone())))?
+                }
+                _ => V::Unit,
+            },
             (V::List(_) | V::Pair(..), V::Int(_)) => int_index(f, &arg),
             (V::SymList(_), V::Int(_)) => int_index(f, &arg),
             (V::List(_) | V::Pair(..), V::Sym(s)) => match sym_lookup(f, *s) {
@@ -473,7 +483,10 @@ impl<'a, 'e> Ev<'a, 'e> {
                             self.host.log.push(HostEv::Apply(*n, V::Unit));
                             if self.host.apply_accept { crate::mon::apply_sentinel(*n, &V::Unit) } else { V::Unit }
                         }
-                        V::Partial(..) => V::Unknown,
+                        V::Partial(recv, inp) => match &**recv {
+                            V::Expr(id) => self.call(*id, (**inp).clone())?,
+                            _ => V::Unit,
+                        },
                         _ => self.defer(),
                     },
                 }
@@ -591,6 +604,12 @@ impl<'a, 'e> Ev<'a, 'e> {
                         V::boolean(truthy(&lv) != truthy(&rv))
                     }
                     Bin::Pair => V::pair(lv, rv),
+                    Bin::Partial => {
+                        if lv.has_unknown() || rv.has_unknown() {
+                            return Ok(V::Unknown);
+                        }
+                        V::Partial(Box::new(lv), Box::new(rv))
+                    }
                     Bin::Concat => {
                         if lv.has_unknown() || rv.has_unknown() {
                             return Ok(V::Unknown);
